@@ -5,7 +5,7 @@
    kinds: 0 = molecule built by assignment, 1 = overflow singleton, 2 = invalid fragment yielded alone. *)
 From Coq Require Import ZArith List Bool Permutation.
 Import ListNotations.
-From SCMO Require Import Lib.Val Model.C06 Proofs.C06 Proofs.C06_dup Proofs.C06_main.
+From SCMO Require Import Lib.Val Model.C06 Proofs.C06 Proofs.C06_dup Proofs.C06_main Proofs.C06_greedy Proofs.C06_cap.
 Open Scope Z_scope.
 
 (* the iterator returns whenever the cap is None or >= 1 *)
@@ -53,6 +53,34 @@ Theorem C06_exact : forall c frags out, c_d c = 0 -> exact_site c -> c_cap c = N
   (forall m, In m out -> normal m = false -> exists f, m_frags m = [f] /\ f_valid f = false).
 Proof. exact exact_main. Qed.
 Print Assumptions C06_exact.
+
+(* exactness with a cap (distance 0, exact sites, max_associated_fragments = k >= 1): the molecule of a class is
+   its first k fragments in arrival order, the rest of the class are exactly its refused (overflow) fragments, and
+   TF = size + overflow = the size of the whole class *)
+Theorem C06_exact_cap : forall c k frags out, c_d c = 0 -> exact_site c -> c_cap c = Some k -> 1 <= k -> assign c frags = Some out ->
+  let ms := filter normal out in
+  let vf := filter f_valid frags in
+  (forall m, In m ms -> exists g, In g vf /\ m_frags m = firstn (Z.to_nat k) (filter (fkeyb c g) vf) /\
+                                  m_ovf m = skipn (Z.to_nat k) (filter (fkeyb c g) vf) /\
+                                  Z.of_nat (length (m_frags m)) + m_over m = Z.of_nat (length (filter (fkeyb c g) vf))) /\
+  (forall x, In x vf -> exists m g, In m ms /\ hd_error (m_frags m) = Some g /\ fkeyb c g x = true) /\
+  NoDup (map (mkey c) ms).
+Proof. exact exact_cap_main. Qed.
+Print Assumptions C06_exact_cap.
+
+(* cap: no molecule exceeds max_associated_fragments, and only a full molecule has refused fragments *)
+Theorem C06_cap : forall c frags out k m, c_cap c = Some k -> assign c frags = Some out -> In m out ->
+  Z.of_nat (length (m_frags m)) <= k /\ (m_ovf m <> [] -> Z.of_nat (length (m_frags m)) = k).
+Proof. exact cap_main. Qed.
+Print Assumptions C06_cap.
+
+(* maximality (no needless splitting), any distance / radius / cap: of two assigned molecules, the first fragment
+   of one was REFUSED (fragment.__eq__ false) by the other as it was at some earlier moment (a non-empty prefix of
+   its fragments and a prefix of its overflow fragments) - a molecule is only started when every cached one refuses *)
+Theorem C06_greedy : forall c frags out, assign c frags = Some out ->
+  forall l1 m1 l2 m2 l3, filter normal out = l1 ++ m1 :: l2 ++ m2 :: l3 -> separated c m1 m2.
+Proof. exact greedy_main. Qed.
+Print Assumptions C06_greedy.
 
 (* exactly one primary: after write_tags every molecule has exactly one fragment not flagged duplicate - the
    first - whatever duplicate flags the input carried (the statement does not mention f_dup) *)
